@@ -41,7 +41,7 @@ def make_replay(prop, v, path, seed):
         "failing_input": None,
     }
     target = v["obligation"]
-    if target.startswith("kani:") and v.get("replay_hint"):
+    if (target.startswith("kani:") or target.startswith("mirror:")) and v.get("replay_hint"):
         target = v["replay_hint"]      # bounded harness: search the same function's contract mirror for a concrete input
     p = native(["search", target, str(seed)])
     if p is not None and p.returncode == 1:
